@@ -133,6 +133,7 @@ def check_cfg(ctx, rep, f, cfg):
     rep.analysed["classification_helpers" + sfx] = sorted(helpers)
     # keys of every function some run-time body calls
     called = set()
+    callers = {}
     for b in f.live:
         for mir in [b.mir] + list(b.promoted):
             for blk in mir["blocks"]:
@@ -141,6 +142,7 @@ def check_cfg(ctx, rep, f, cfg):
                     r = t["f"].get("res") or {}
                     if r.get("key"):
                         called.add(r["key"])
+                        callers.setdefault(r["key"], []).append(b)
     # a closure that builds a TwoFloat is read where it runs: its parent is evaluated with closures and core's Option / bool
     # plumbing (`cond.then(|| TwoFloat { .. })`) read through, so that the parent's tests dominate the closure's aggregate
     closures_with_sites = [b for b in f.live if b.kind == "Closure" and raw_sites(b)]
@@ -150,10 +152,21 @@ def check_cfg(ctx, rep, f, cfg):
         par.sort(key=lambda p_: -len(p_.key))
         if par and not raw_sites(par[0]) and par[0] not in extra_parents:
             extra_parents.append(par[0])
-    through = set(helpers) | {b.ident() for b in f.live if b.kind == "Closure"} | {pb.ident() for pb in f.plumbing.values()}
-    work = [b for b in f.live if b.kind != "Closure" and (raw_sites(b) or b in extra_parents)] + closures_with_sites
+    # a private generic helper that builds a TwoFloat from what a closure / fn-item parameter returns is read in its callers too
+    generic_builders = [b for b in f.live if b.kind != "Closure" and not b.reachable and b.trait is None and b.generics and raw_sites(b)
+                        and any("Fn" in g for g in b.generics)]
+    for g_ in generic_builders:
+        for c_ in callers.get(g_.key, []):
+            if c_.kind != "Closure" and not raw_sites(c_) and c_ not in extra_parents:
+                extra_parents.append(c_)
+    through = set(helpers) | {b.ident() for b in f.live if b.kind == "Closure"} | {pb.ident() for pb in f.plumbing.values()} | {g_.ident() for g_ in generic_builders}
+    work = [b for b in f.live if b.kind != "Closure" and b not in generic_builders and (raw_sites(b) or b in extra_parents)] + closures_with_sites + generic_builders
     for b in work:
         sites = raw_sites(b)
+        if b in generic_builders and b.ident() in vg.COVERED:
+            rep.ok("R1", b.ident() + " (generic helper read in its callers)" + sfx, detail="classified where it is called", nontrivial=False)
+            total_sites += len(sites)
+            continue
         if b.kind == "Closure" and b.ident() in vg.COVERED:
             rep.ok("R1", b.ident() + " (closure read in its parent)" + sfx, detail="classified where it is called", nontrivial=False)
             total_sites += len(sites)
@@ -300,6 +313,8 @@ def ok_source(v):
         n = v[1]
         if n.startswith("op:") or n.startswith("TwoFloat::") or n.startswith("fn:") or n.startswith("<") or n in LOCAL_IDENTS:
             return True      # a function of this crate: its own returns are classified where it is defined
+        if re.match(r"^core::ops::(function::)?Fn(Once|Mut)?::call(_once|_mut)?<", n):
+            return True      # the value of a closure / fn-item parameter: code of this crate, read where it is passed
         if re.match(r"^core::ops::\w+::\w+<TwoFloat,", n):
             # an operator on TwoFloat not resolved inside a private generic helper: every impl is either one of
             # the crate's (classified itself) or a downstream one, which can only use the public constructors
